@@ -148,6 +148,68 @@ pub fn run(rep: &Report) -> i32 {
             });
         }
     });
+    // (1b) other API calls in between: state carried from one call to the next (caches, process-global settings)
+    // must not change what a later compilation of the same source returns
+    {
+        use simfony::parse::ParseFromStr;
+        let ops: Vec<(&str, Box<dyn Fn()>)> = vec![
+            ("ResolvedType::parse_from_str", Box::new(|| {
+                let _ = simfony::ResolvedType::parse_from_str("(u32, Either<u8, bool>)");
+                let _ = simfony::ResolvedType::parse_from_str("List<[u8; 3], 8");
+            })),
+            ("Value::parse_from_str", Box::new(|| {
+                let ty = simfony::ResolvedType::parse_from_str("(u8, Either<u8, [u8; 2]>)").unwrap();
+                let _ = simfony::Value::parse_from_str("(1, Right(0x0102))", &ty).map(|v| v.to_string());
+                let _ = simfony::Value::parse_from_str("(1, 2, 3)", &ty).map_err(|e| e.to_string());
+            })),
+            ("WitnessValues / Arguments::parse_from_str", Box::new(|| {
+                let _ = simfony::WitnessValues::parse_from_str("mod witness { const A: u8 = 5; const B: (u16, bool) = (7, true); }").map(|w| w.to_string());
+                let _ = simfony::Arguments::parse_from_str("mod param { const K: u256 = 1; } mod witness {}").map(|w| w.to_string());
+            })),
+            ("serde_json", Box::new(|| {
+                let _ = serde_json::from_str::<simfony::WitnessValues>("{\"A\": {\"value\": \"Left(1)\", \"type\": \"Either<u8, u16>\"}}").map(|w| serde_json::to_string(&w));
+                let _ = serde_json::from_str::<simfony::Arguments>("{\"A\": {\"value\": \"oops\", \"type\": \"u8\"}}").map_err(|e| e.to_string());
+            })),
+            ("rejected compilation (error rendering)", Box::new(|| {
+                let _ = simfony::TemplateProgram::new("fn main() {\r\n    let x: u8 = /* é */ 256;\r\n}");
+                let _ = simfony::TemplateProgram::new("fn main() { let x: u8 = ");
+            })),
+            ("satisfy / satisfy_with_env / encode", Box::new(|| {
+                if let Ok(c) = simfony::CompiledProgram::new("fn main() { let a: u8 = witness::A; assert!(jet::eq_8(a, 3)); }", simfony::Arguments::default(), true) {
+                    let w = drive::witness_map(&[("A".to_string(), crate::lang::Val::u(8, 3), crate::lang::Ty::U(8))]);
+                    let _ = c.satisfy(w.shallow_clone()).map(|s| s.redeem().encode_to_vec());
+                    let _ = c.satisfy_with_env(w, Some(&drive::dummy_env())).map(|s| s.redeem().encode_to_vec());
+                    let _ = c.debug_symbols();
+                }
+            })),
+        ];
+        for (label, op) in &ops {
+            if drive::guard(|| op()).is_err() {
+                rep.class("intermediate-call-panicked(C06's subject)");
+            }
+            for (n, t) in &corpus {
+                if !(n.starts_with("ex-") || n.starts_with("static-") || n.starts_with("bad-")) {
+                    continue;
+                }
+                for debug in [false, true] {
+                    rep.transition(1);
+                    rep.eval(1);
+                    rep.trace(1);
+                    let l = compile_line(t, debug);
+                    if l != reference[&(n.clone(), debug)] {
+                        rep.class("DIFFERS-AFTER-OTHER-CALLS");
+                        rep.violation(
+                            "C19:in-process-nondeterminism-after-other-calls",
+                            format!("{n} (debug={debug}): after calling {label} in the same process, compiling the same source gives a different result ({} instead of {})", l.chars().take(30).collect::<String>(), reference[&(n.clone(), debug)].chars().take(30).collect::<String>()),
+                            json!({"kind": "determinism", "program": t, "debug": debug, "where": "in-process after other API calls", "after": label}),
+                        );
+                    } else {
+                        rep.class("equal-after-other-calls");
+                    }
+                }
+            }
+        }
+    }
     // (2) separately started processes with chosen hash seeds
     let exe = std::env::current_exe().unwrap();
     let mut orders = BTreeSet::new();
